@@ -38,6 +38,10 @@ pub enum FeR {
     Small(u16),
     /// uniform: limbs reduced mod p
     Limbs(Vec<u64>),
+    /// the element whose internal Montgomery representation has the given limb pattern
+    /// (per limb 0 -> 0, 1 -> 1, 2 -> 2^63, 3 -> 2^64-1; top limb only 0/1): value = pattern * R^-1 mod p.
+    /// Puts all-ones / single-bit limbs into the limbs the carry chains actually see.
+    MontPattern(Vec<u8>),
 }
 
 impl FeR {
@@ -57,6 +61,24 @@ impl FeR {
             FeR::MontRM1 => (one.clone() << (64 * nlimbs)) - &one,
             FeR::Small(k) => Z::from(*k as u32),
             FeR::Limbs(l) => crate::adapt::limbs_to_z(l),
+            FeR::MontPattern(pat) => {
+                let limbs: Vec<u64> = (0..nlimbs)
+                    .map(|i| {
+                        let sel = pat.get(i).copied().unwrap_or(0) % 4;
+                        let sel = if i == nlimbs - 1 { sel % 2 } else { sel };
+                        match sel {
+                            0 => 0,
+                            1 => 1,
+                            2 => 1u64 << 63,
+                            _ => u64::MAX,
+                        }
+                    })
+                    .collect();
+                let m = crate::adapt::limbs_to_z(&limbs) % p;
+                let r = (Z::one() << (64 * nlimbs)) % p;
+                let rinv = r.modpow(&(p - Z::from(2u32)), p);
+                (m * rinv) % p
+            }
         };
         v % p
     }
@@ -66,6 +88,7 @@ impl FeR {
             FeR::One => "one",
             FeR::Limbs(_) => "uniform",
             FeR::Small(_) | FeR::Two => "small",
+            FeR::MontPattern(_) => "montgomery-limb-pattern",
             _ => "boundary",
         }
     }
@@ -92,6 +115,7 @@ pub fn fe_strategy(nlimbs: usize) -> BoxedStrategy<FeR> {
         1 => Just(FeR::MontR2),
         1 => Just(FeR::MontRM1),
         2 => any::<u16>().prop_map(FeR::Small),
+        4 => proptest::collection::vec(0u8..4, nlimbs).prop_map(FeR::MontPattern),
         14 => proptest::collection::vec(any::<u64>(), nlimbs).prop_map(FeR::Limbs),
     ]
     .boxed()
